@@ -1,0 +1,33 @@
+//go:build verif
+
+// Contracts for package reverse (read by /verif/gocv; comment-only effect with the verif tag off).
+
+package reverse
+
+// ---------------------------------------------------------------------------
+// C19: reversing a term never indexes out of range, for valid and invalid UTF-8 alike
+// ---------------------------------------------------------------------------
+
+// unicode.Is (assumed): a pure table lookup; U+FFFD (what an invalid byte decodes to) is in none of
+// the combining-mark tables Mn, Me, Mc — the only tables used in this package.
+//@ assume func unicode.Is(rangeTab, r)
+//@   pure
+//@   ensures implies(r == utf8.RuneError, !result)
+
+// reverse copies s into a fresh buffer of the same length, one grapheme-ish group (a rune and the
+// combining marks after it) at a time, from the back. cursorIn is always the byte offset of rune i.
+//@ func reverse
+//@   props C19
+//@   mode int
+//@   ensures fresh(result) && len(result) == len(s)
+//@   loop 0: invariant 0 <= i && i <= len(inputRunes) && cursorIn == runeOff(s, i) && cursorOut == len(s) - cursorIn && len(output) == len(s) && fresh(output) && fresh(inputRunes) && len(inputRunes) == utf8.RuneCount(s)
+//@   loop 0: decreases len(inputRunes) - i
+//@   loop 1: invariant 1 <= i && i <= len(inputRunes) && cursorIn + wid == runeOff(s, i) && wid >= 1 && cursorOut == len(s) - cursorIn && len(output) == len(s) && fresh(output) && fresh(inputRunes) && len(inputRunes) == utf8.RuneCount(s)
+//@   loop 1: decreases len(inputRunes) - i
+
+//@ func ReverseFilter.Filter
+//@   props C19
+//@   mode int
+//@   requires forall(k, 0, len(input), input[k] != nil)
+//@   modifies analysis.Token.Term
+//@   ensures result == input
